@@ -1,5 +1,5 @@
 (* C02 - CTAP2 response encoding carries every member under its specified key, exactly. *)
-From Ctap Require Import Base Schema Wire Typed Procs Inst Tables ProcTables Finite Canonical WireP SerP FramingP ObResponseSide ObRespTables FnShapes Shapes ObShapeResponse AgreeP ObResponseAgree Deps ObDeps ObShapeFilters ObShapeBuilders ObShapeAccessors ObShapeTablesInfo.
+From Ctap Require Import Base Schema Wire Typed Procs Inst Tables ProcTables Finite Canonical WireP SerP FramingP ObResponseSide ObRespTables FnShapes Shapes ObShapeResponse AgreeP ObResponseAgree Deps ObDeps ObShapeFilters ObShapeBuilders ObShapeAccessors ObShapeTablesInfo PlainDecls ObPlainBuilders ObPlainMisc.
 Local Open Scope string_scope.
 Local Open Scope Z_scope.
 
@@ -134,6 +134,12 @@ Proof. exact generated_shapes_accessors. Qed.
 Theorem c02_modelled_functions_unchanged_tables_info : shapes_hold fn_shapes shapes_tables_info = true.
 Proof. exact generated_shapes_tables_info. Qed.
 
+(* the plain structures (no serde meaning of their own) whose member types the model relies on *)
+Theorem c02_plain_structures_unchanged_builders : plain_hold raw_decls plain_builders = true.
+Proof. exact generated_plain_builders. Qed.
+Theorem c02_plain_structures_unchanged_misc : plain_hold raw_decls plain_misc = true.
+Proof. exact generated_plain_misc. Qed.
+
 Eval vm_compute in "ASSUMPTIONS c02_message". Print Assumptions c02_message.
 Eval vm_compute in "ASSUMPTIONS c02_parameterless". Print Assumptions c02_parameterless.
 Eval vm_compute in "ASSUMPTIONS c02_next_assertion_same". Print Assumptions c02_next_assertion_same.
@@ -152,3 +158,5 @@ Eval vm_compute in "ASSUMPTIONS c02_modelled_functions_unchanged_filters". Print
 Eval vm_compute in "ASSUMPTIONS c02_modelled_functions_unchanged_builders". Print Assumptions c02_modelled_functions_unchanged_builders.
 Eval vm_compute in "ASSUMPTIONS c02_modelled_functions_unchanged_accessors". Print Assumptions c02_modelled_functions_unchanged_accessors.
 Eval vm_compute in "ASSUMPTIONS c02_modelled_functions_unchanged_tables_info". Print Assumptions c02_modelled_functions_unchanged_tables_info.
+Eval vm_compute in "ASSUMPTIONS c02_plain_structures_unchanged_builders". Print Assumptions c02_plain_structures_unchanged_builders.
+Eval vm_compute in "ASSUMPTIONS c02_plain_structures_unchanged_misc". Print Assumptions c02_plain_structures_unchanged_misc.
